@@ -617,6 +617,9 @@ pub fn run(args: &Args) -> i32 {
         return crate::props::replay_file(ctx, path, replay);
     }
     let thorough = args.tier.thorough();
+    // one item moves up to 13 GiB through the real write and read paths (minutes on a busy machine): the default
+    // two-minute watchdog would mistake that for a call that does not return
+    crate::util::set_hang_budget_secs(if thorough { 3600 } else { 900 });
     let it = |size: u64, large: bool| Item { size, large, method: 0, password: false };
     let mut cases: Vec<Case> = vec![];
     let sizes: Vec<u64> = if thorough { vec![G4 - 2, G4 - 1, G4, G4 + 1, 5 << 30] } else { vec![G4 - 2, G4 - 1, G4] };
